@@ -179,6 +179,10 @@ func (v *validator) recoverDeniedPeers() {
 }
 
 func (v *validator) addBroadcastMsg(msg *broadcastMsg) {
+	// disableValidation 配置下不创建validator
+	if v == nil {
+		return
+	}
 	v.msgLock.Lock()
 	defer v.msgLock.Unlock()
 	v.msgList.PushBack(msg)
